@@ -87,10 +87,16 @@ func (d *tDecoder) Decode(b []byte, base unsafe.Pointer, sd *structDesc, maxdept
 
 	i := 0
 	for {
+		if i >= len(b) {
+			return i, io.ErrShortBuffer // truncated: no field header or tSTOP
+		}
 		tp := ttype(b[i])
 		i++
 		if tp == tSTOP {
 			break
+		}
+		if len(b)-i < 2 {
+			return i, io.ErrShortBuffer // truncated field id
 		}
 		fid := binary.BigEndian.Uint16(b[i:])
 		i += 2
@@ -112,6 +118,9 @@ func (d *tDecoder) Decode(b []byte, base unsafe.Pointer, sd *structDesc, maxdept
 		t := f.Type
 		p = d.mallocIfPointer(t, p)
 		if t.FixedSize > 0 {
+			if len(b)-i < t.FixedSize {
+				return i, fmt.Errorf("decode field %d of struct %s err: %w", fid, sd.rt.String(), io.ErrShortBuffer)
+			}
 			i += decodeFixedSizeTypes(t.T, b[i:], p)
 		} else {
 			var n int
@@ -218,6 +227,9 @@ func (d *tDecoder) decodeType(t *tType, b []byte, p unsafe.Pointer, maxdepth int
 		return 0, errDepthLimitExceeded
 	}
 	if t.FixedSize > 0 {
+		if len(b) < t.FixedSize {
+			return 0, io.ErrShortBuffer
+		}
 		return decodeFixedSizeTypes(t.T, b, p), nil
 	}
 	switch t.T {
@@ -318,6 +330,10 @@ func (d *tDecoder) decodeType(t *tType, b []byte, p unsafe.Pointer, maxdepth int
 				tmp = sliceK
 			}
 			if kt.FixedSize > 0 {
+				if len(b)-i < kt.FixedSize {
+					err = io.ErrShortBuffer
+					break
+				}
 				i += decodeFixedSizeTypes(kt.T, b[i:], tmp)
 			} else {
 				if n, err = d.decodeType(kt, b[i:], tmp, maxdepth-1); err != nil {
@@ -341,6 +357,10 @@ func (d *tDecoder) decodeType(t *tType, b []byte, p unsafe.Pointer, maxdepth int
 				v.SetZero()
 			}
 			if vt.FixedSize > 0 {
+				if len(b)-i < vt.FixedSize {
+					err = io.ErrShortBuffer
+					break
+				}
 				i += decodeFixedSizeTypes(vt.T, b[i:], tmp)
 			} else {
 				if n, err = d.decodeType(vt, b[i:], tmp, maxdepth-1); err != nil {
